@@ -496,6 +496,121 @@ Fixpoint image (e : env) (v : rvalue) : data :=
       else DStr disp
   end.
 
+(* ---------- the values on which the format is unambiguous ---------- *)
+(* The deserializer takes every hash whose keys are all strings and include __ptype for the encoding of a
+   rich value (deserializer.go:48-58), so a *user* hash of that shape - in the value, or in its lossy image -
+   cannot round-trip: open finding user-hash-ptype-key.  rt_ok excludes exactly that, plus three shapes the
+   real library cannot produce: a value with a serialization string whose type is named Hash, Sensitive or
+   Default; an object whose type is given neither by name nor as a type value; an attribute named __ptype
+   or __pvalue. *)
+Definition reserved_tn (s : str) : bool := str_eqb t_hash s || str_eqb t_sensitive s || str_eqb t_default s.
+Definition reserved_key (s : str) : bool := str_eqb ptype_key s || str_eqb pvalue_key s.
+Definition reads_as_rich (keys : list data) : bool := forallb is_dstr keys && existsb (dkey_is ptype_key) keys.
+
+Fixpoint rt_ok (e : env) (v : rvalue) {struct v} : bool :=
+  match v with
+  | VArr _ vs => forallb (rt_ok e) vs
+  | VHash _ es =>
+      if e_ck e || all_keys_str es then
+        forallb (fun en => rt_ok e (fst (fst en)) && rt_ok e (snd en)) es &&
+        negb (reads_as_rich (map (fun en => image e (fst (fst en))) es))
+      else if e_rich e then
+        forallb (fun en => rt_ok e (fst (fst en)) && rt_ok e (snd en)) es
+      else
+        forallb (fun en => rt_ok e (snd en)) es &&
+        negb (existsb (fun en => match fst (fst en) with
+                                 | VStr s => str_eqb ptype_key s
+                                 | _ => str_eqb ptype_key (snd (fst en))
+                                 end) es)
+  | VSens _ x => negb (e_rich e) || rt_ok e x
+  | VRich _ tn _ _ _ => negb (e_rich e) || negb (reserved_tn tn)
+  | VObj _ ty _ attrs _ =>
+      negb (e_rich e) ||
+      (rt_ok e ty &&
+       match ty with
+       | VStr s => negb (reserved_tn s)
+       | VRich _ _ _ _ _ | VObj _ _ _ _ _ => true
+       | _ => false
+       end &&
+       forallb (fun a => negb (reserved_key (fst a)) && rt_ok e (snd a)) attrs)
+  | _ => true
+  end.
+
+(* the plain Data fragment: what needs no rich encoding *)
+Fixpoint is_data (v : rvalue) : bool :=
+  match v with
+  | VUndef | VBool _ | VInt _ | VFloat _ | VStr _ => true
+  | VArr _ vs => forallb is_data vs
+  | VHash _ es => forallb (fun en => is_vstr (fst (fst en)) && is_data (snd en)) es
+  | _ => false
+  end.
+
+(* ---------- identity tags name subtrees, as a checker ---------- *)
+Definition id_of (v : rvalue) : option N :=
+  match v with
+  | VArr id _ | VHash id _ | VSens id _ | VBin id _ _ | VRich id _ _ _ _ | VObj id _ _ _ _ => Some id
+  | _ => None
+  end.
+
+(* every node of v, v first *)
+Fixpoint nodes (v : rvalue) : list rvalue :=
+  v :: match v with
+       | VArr _ vs => flat_map nodes vs
+       | VHash _ es => flat_map (fun en => nodes (fst (fst en)) ++ nodes (snd en)) es
+       | VSens _ x => nodes x
+       | VObj _ ty _ attrs _ => nodes ty ++ flat_map (fun a => nodes (snd a)) attrs
+       | _ => []
+       end.
+
+(* structural equality of values, given an equality test on payloads *)
+Fixpoint rvalue_eqb (peqb : payload -> payload -> bool) (a b : rvalue) {struct a} : bool :=
+  match a, b with
+  | VUndef, VUndef => true
+  | VDefault, VDefault => true
+  | VBool x, VBool y => Bool.eqb x y
+  | VInt x, VInt y => Z.eqb x y
+  | VFloat x, VFloat y => Z.eqb x y
+  | VStr x, VStr y => str_eqb x y
+  | VArr i x, VArr j y =>
+      N.eqb i j &&
+      (fix go (x y : list rvalue) : bool :=
+         match x, y with
+         | [], [] => true
+         | a :: x', b :: y' => rvalue_eqb peqb a b && go x' y'
+         | _, _ => false
+         end) x y
+  | VHash i x, VHash j y =>
+      N.eqb i j &&
+      (fix go (x y : list (rvalue * str * rvalue)) : bool :=
+         match x, y with
+         | [], [] => true
+         | (k, kd, v) :: x', (k2, kd2, v2) :: y' =>
+             rvalue_eqb peqb k k2 && str_eqb kd kd2 && rvalue_eqb peqb v v2 && go x' y'
+         | _, _ => false
+         end) x y
+  | VSens i x, VSens j y => N.eqb i j && rvalue_eqb peqb x y
+  | VBin i p d, VBin j q d2 => N.eqb i j && peqb p q && str_eqb d d2
+  | VRich i tn l p d, VRich j tn2 l2 q d2 =>
+      N.eqb i j && str_eqb tn tn2 && Bool.eqb l l2 && peqb p q && str_eqb d d2
+  | VObj i ty h ats d, VObj j ty2 h2 ats2 d2 =>
+      N.eqb i j && rvalue_eqb peqb ty ty2 && Nat.eqb h h2 &&
+      (fix go (x y : list (str * rvalue)) : bool :=
+         match x, y with
+         | [], [] => true
+         | (k, v) :: x', (k2, v2) :: y' => str_eqb k k2 && rvalue_eqb peqb v v2 && go x' y'
+         | _, _ => false
+         end) ats ats2 && str_eqb d d2
+  | _, _ => false
+  end.
+
+(* two nodes with the same tag are the same tree (eqb: a sound equality test on values) *)
+Definition wf_richb (eqb : rvalue -> rvalue -> bool) (x : rvalue) : bool :=
+  forallb (fun a => forallb (fun b =>
+    match id_of a, id_of b with
+    | Some i, Some j => if N.eqb i j then eqb a b else true
+    | _, _ => true
+    end) (nodes x)) (nodes x).
+
 (* ---------- well-formedness of a stream, as a checker ---------- *)
 (* every back-reference points to an earlier position; a hash receives an even number of children;
    only plain Data goes to a consumer that lacks a capability: no Binary without can_binary, and
